@@ -10,6 +10,63 @@ POW2_T = [8, 32, 128, 256, 512, 1024, 65536, 1 << 20, 1 << 31]
 ODD_T = [6, 7, 9, 10, 11, 14, 17, 19, 20, 24, 25, 31, 33, 63, 127, 255, 1000, 4095, 65535, 1000003]
 
 
+LINES = {1: "nop", 2: "nop2", 3: "nop3", 4: "nop4", 5: "nop5", 6: "nop6", 7: "nop7", 8: "nop8", 9: "nop9", 10: "mov rax, 0x1122334455667788", 11: "nop11",
+         12: "mov qword [rax+rcx*8+0x12345678], 0x12345678", 13: "mov qword [r12d+r13d*8+0x12345678], 0x12345678", 14: "mov word [r12d+r13d*8+0x12345678], 0x1234"}
+
+
+def step_sweep(kind, c):
+    """Native confirmation for a failed step obligation: the obligations of the step contracts are
+    evaluated on the REAL library for every caller-buffer length n <= 48+c, every start position p <= n
+    and every instruction length 1..14, in the mode of the lemma; the first failing history is the replay."""
+    def fn(l, failure):
+        import re
+        c_ = c if c >= 2 else 16
+        script, cases = [], []
+        for n in list(range(0, 40)) + [c_ + k for k in range(18, 30)]:
+            for p in range(0, n + 1):
+                if p > 64 + c_:
+                    continue
+                for L, line in LINES.items():
+                    script += ["create %d" % n] + (["chunk %d" % c_] if kind == "fit" else []) + ["offset %d" % p,
+                               ("count %d %s" % (c_, line)) if kind == "cnt" else "asm " + line, "guards"]
+                    cases.append((n, p, L, line))
+        rc, out = native.run_drv("\n".join(script) + "\n", timeout=300)
+        if rc is None:
+            return {"reproduced": False, "error": out}
+        recs = re.findall(r"(?:asm rc=(\d+) start=\d+ offset=(-?\d+)|count rc=(\d+) offset=(-?\d+) count=(-?\d+))\n(GUARD-\S+)", out)
+        bad = None
+        for (n, p, L, line), r in zip(cases, recs):
+            rcv = int(r[0] or r[2]); off = int(r[1] or r[3]); guard = r[5]
+            room = p + 20 <= n
+            why = None
+            if guard != "GUARD-OK":
+                why = "bytes outside the buffer were modified"
+            elif rcv == 0 and not room:
+                why = "EXIT_SUCCESS although fewer than 20 bytes were left"
+            elif rcv == 0 and off > n:
+                why = "offset beyond the buffer"
+            elif rcv == 0 and kind == "cnt" and int(r[4]) != (1 if p // c_ != (p + L - 1) // c_ else 0):
+                why = "count %s, expected %d" % (r[4], 1 if p // c_ != (p + L - 1) // c_ else 0)
+            elif rcv == 0 and kind == "fit" and L < c_ and (off - L) // c_ != (off - 1) // c_:
+                why = "instruction of %d bytes at %d straddles a %d-byte boundary" % (L, off - L, c_)
+            elif rcv == 0 and kind == "fit" and p // c_ == (p + L - 1) // c_ and off != p + L:
+                why = "padding although the instruction fits its chunk"
+            elif rcv == 0 and kind != "fit" and off != p + L:
+                why = "offset advanced by %d, instruction has %d bytes" % (off - p, L)
+            elif rcv != 0 and room and kind != "fit":
+                why = "EXIT_FAILURE although 20 bytes were left"
+            if why:
+                bad = (n, p, L, line, why)
+                break
+        if not bad:
+            return {"reproduced": False, "note": "native sweep over %d histories found no failing one" % len(cases)}
+        n, p, L, line, why = bad
+        hist = "create %d\\n%soffset %d\\n%s\\nguards\\nstate\\n" % (n, ("chunk %d\\n" % c_) if kind == "fit" else "", p, ("count %d %s" % (c_, line)) if kind == "cnt" else "asm " + line)
+        return {"reproduced": True, "cmd": "printf '%s' | %s" % (hist, native.drv()[1]), "output": why,
+                "fail_regex": "GUARD-CORRUPT|SIGNAL|.", "text": {"history": hist.replace("\\n", " | "), "violated": why}}
+    return fn
+
+
 def chunk_lemmas(kind, props):
     out = []
     fn = {"fit": "assemble_with_chunk_fitting", "cnt": "assemble_counting_chunks"}[kind]
@@ -24,7 +81,7 @@ def chunk_lemmas(kind, props):
             defs["PMAX"] = "%du" % pmax
             b += ", position < %d" % pmax
         return Lemma(name="%s.%s.c%d%s" % (props[0], kind, c, ".p%d" % pmax if pmax else ""), src="steps.c", entry=entry, props=props, tier=tier,
-                     defs=defs, enforce=[R(fn)], replace=rep, unwindset=US, functions=[fn], bounded=b, slice=True,
+                     defs=defs, enforce=[R(fn)], replace=rep, unwindset=US, functions=[fn], bounded=b, slice=True, replay=step_sweep(kind, c),
                      timeout=900 if not pmax else 300,
                      desc=what + "; position and instruction length (1..20) symbolic, buffer length any int")
     for c in POW2_Q:
@@ -45,18 +102,25 @@ def lemmas():
                      functions=["check_len_or_resize"], timeout=120,
                      desc="room check on a caller buffer: success <=> position + 20 <= buffer_len over widened integers, for every int length and every non-negative int position; assigns nothing"))
     out.append(Lemma(name="C07.assemble", src="steps.c", entry="h_assemble", props=["C07", "C06"], enforce=[R("assemble")], replace=CALLEES,
-                     unwindset=US, functions=["assemble"], timeout=300,
+                     unwindset=US, functions=["assemble"], timeout=300, replay=step_sweep("asm", 0),
                      desc="plain step: writes only [buffer+p, buffer+p+20) and only when p+20 <= n; fewer than 20 bytes left => EXIT_FAILURE, position and buffer untouched; position advances by the emitter's length; buffer is_fresh of ANY int length"))
     # the same three steps with the room check INLINED (not by contract): independent of check_len_or_resize's signature and contract
     out.append(Lemma(name="C07.assemble.inl", src="steps.c", entry="h_assemble", props=["C07", "C06"], enforce=[R("assemble")], replace=[R("assemble_asm")],
-                     unwindset=US, functions=["assemble", "check_len_or_resize"], timeout=300,
+                     unwindset=US, functions=["assemble", "check_len_or_resize"], timeout=300, replay=step_sweep("asm", 0),
                      desc="plain step with the real room check inlined: same contract (writes only [buffer+p, +20) and only when p+20 <= n, else EXIT_FAILURE and nothing written)"))
     out.append(Lemma(name="C07.cnt.inl.c16", src="steps.c", entry="h_counting", props=["C07", "C14"], defs={"CHUNK": "16u"}, enforce=[R("assemble_counting_chunks")], replace=[R("assemble_asm")],
-                     unwindset=US, functions=["assemble_counting_chunks", "check_len_or_resize"], timeout=600, bounded="chunk size enumerated (c=16)", slice=True,
+                     unwindset=US, functions=["assemble_counting_chunks", "check_len_or_resize"], timeout=600, bounded="chunk size enumerated (c=16)", slice=True, replay=step_sweep("cnt", 16),
                      desc="counting step with the real room check inlined (chunk 16)"))
     out.append(Lemma(name="C07.fit.inl.c16", src="steps.c", entry="h_fitting", props=["C07", "C13"], defs={"CHUNK": "16u"}, enforce=[R("assemble_with_chunk_fitting")], replace=[R("assemble_asm"), R("nop_padding")],
-                     unwindset=US, functions=["assemble_with_chunk_fitting", "check_len_or_resize"], timeout=600, bounded="chunk size enumerated (c=16)", slice=True,
+                     unwindset=US, functions=["assemble_with_chunk_fitting", "check_len_or_resize"], timeout=600, bounded="chunk size enumerated (c=16)", slice=True, replay=step_sweep("fit", 16),
                      desc="fitting step with the real room check inlined (chunk 16)"))
+    # loop-level step contracts (free chunk size) on the real bodies
+    for f, e, rep, to, cs in (("assemble", "h_assemble_l", CALLEES, 300, [0]), ("assemble_counting_chunks", "h_counting_l", CALLEES, 1200, [0]),
+                              ("assemble_with_chunk_fitting", "h_fitting_l", CALLEES + [R("nop_padding")], 900, [16, 13, 2, 4096, 100])):
+      for c in cs:
+        out.append(Lemma(name="C06.step_l." + f + (".c%d" % c if c else ""), src="steps.c", entry=e, props=["C06", "C07", "C14"], enforce=["%s/%s__le" % (f, f)], replace=rep, unwindset=US, functions=[f], timeout=to,
+                         defs={"CHUNK": "%du" % c} if c else {}, bounded="chunk size enumerated (c=%d)" % c if c else None, tier="quick" if c in (0, 16, 13) else "thorough", slice=bool(c),
+                         desc="loop-level contract of %s (the form the line loop of assemble_all is proved against; chunk size free, buffer any int length): frame [buffer+p, ..) only with room, position advances by 1..20 inside the buffer (fitting: never backwards), failure without room, counter changes by 0 or 1" % f))
     S1US = "s1_decode.0:5,s1_decode.1:6,s1_decode.2:260,s1_decode.3:9,s1_all_nops.0:21,one.0:25,one.1:25"
     for k in range(1, 20):
         out.append(Lemma(name="C13.nop_padding.k%d" % k, src="nops.c", entry="h_nop_padding", props=["C13", "C09"], defs={"NOP_K": str(k)},
